@@ -777,3 +777,61 @@ func checkRetrievedThenGivenUp(c *core.Ctx, st *core.RuleStat, rule string, pi *
 		}
 	}
 }
+
+// checkPeekedHandledConsumed: a handler that looks at the head of a port (PeekIncoming), acts on
+// it and reports progress has taken it off the port: from the peek (message present) no path
+// reaches `return true` of the peeking function without RetrieveIncoming on the same port. A
+// message that is handled but left at the head is handled again on the next tick.
+func checkPeekedHandledConsumed(c *core.Ctx, st *core.RuleStat, rule string, pi *PkgInfo, what string) {
+	for _, fn := range pi.Funcs {
+		if fn.Signature.Results().Len() != 1 {
+			continue
+		}
+		if bt, ok := fn.Signature.Results().At(0).Type().Underlying().(*types.Basic); !ok || bt.Kind() != types.Bool {
+			continue
+		}
+		var g *core.Graph
+		for _, b := range fn.Blocks {
+			for _, in := range b.Instrs {
+				cc := core.CallOf(in)
+				if cc == nil || !cc.IsInvoke() || cc.Method.Name() != "PeekIncoming" {
+					continue
+				}
+				port := portOfCall(in)
+				if g == nil {
+					g = core.BuildGraph(fn, 3, func(cal *ssa.Function) bool { return cal.Pkg == fn.Pkg })
+				}
+				n := g.NodeOf(in)
+				if n == nil {
+					continue
+				}
+				st.Instances++
+				c.MarkAnalysed(fn)
+				peeked, _ := in.(ssa.Value)
+				empty := NilCut(func(v ssa.Value) bool { return peeked != nil && v == peeked }, true)
+				var bad *core.Node
+				okW := g.Walk(core.After(n, nil), core.WalkOpts{ForwardOnly: true,
+					CutEdge: func(m *core.Node, i int) bool { return empty(m, i) },
+					Stop: func(m *core.Node) bool {
+						rc := core.CallOf(m.Instr)
+						return rc != nil && rc.IsInvoke() && rc.Method.Name() == "RetrieveIncoming" && portOfCall(m.Instr) == port
+					}}, func(x core.State) {
+					r, ok := x.N.Instr.(*ssa.Return)
+					if !ok || x.N.Frame.Parent != nil || len(r.Results) != 1 || bad != nil {
+						return
+					}
+					if core.EvalFact(x.N, r.Results[0], x.F) > 0 {
+						bad = x.N
+					}
+				})
+				st.Ob(bad == nil && okW)
+				st.Sample("%s: a message peeked on %s is retrieved on every path that reports progress: %v", core.FuncName(fn), port, bad == nil)
+				if !okW {
+					c.Undecided(rule, fn, in.Pos(), "peeked-handled:"+core.FuncName(fn), "state cap reached")
+				} else if bad != nil {
+					c.ReportAt(rule, fn, in.Pos(), "handled-not-consumed:"+port+":"+core.FuncName(fn), core.FuncName(fn)+" looks at the head of "+port+", handles it and reports progress ("+c.Position(bad.Instr.Pos())+") on a path without RetrieveIncoming on "+port+": "+what)
+				}
+			}
+		}
+	}
+}
